@@ -5,6 +5,9 @@ Property theorems only (helper lemmas live in Emboss/Lemmas/Deps.lean).
 Model: Emboss/Model/Deps.lean (mirrors dependency_checker.py).
 -/
 import Emboss.Lemmas.Deps
+import Emboss.Lemmas.TarjanMain
+import Emboss.Lemmas.DepsMore
+import Emboss.Lemmas.GroupsCanon
 namespace Emboss.Deps
 
 /-- Every field of `fields_in_dependency_order` comes after all fields (or runtime
@@ -49,5 +52,267 @@ example :
     order exDeps [7] [0, 1, 2] = [1, 2, 0] ∧ TopoFrom exDeps [7] [2, 0, 1] ∧
       ¬ TopoFrom exDeps [7] [0, 1, 2] := by
   decide
+
+/-! ## Cycle detection (`_find_cycles`, Tarjan as written in dependency_checker.py) -/
+
+/-- The final state of `_find_cycles` on a graph all of whose destinations are keys:
+never out of fuel, invariant holds, stack empty, every key indexed. -/
+theorem tarjan_final (g : Graph) (hc : closed g = true) :
+    Inv g (tarjan g (keys g).length) ∧ (tarjan g (keys g).length).stack = [] ∧
+      ∀ v ∈ keys g, indexed (tarjan g (keys g).length) v = true := by
+  have h := tarjanLoop_spec (closed_edge hc) (keys g).length (keys g) TState.init (Inv.init g) rfl
+    (fun v hv => hv) (List.countP_le_length)
+  exact ⟨h.1, h.2.1, h.2.2.2⟩
+
+/-- `C15_terminates`: recursion depth (the model's fuel) never exceeds the number of keys:
+`_find_cycles` returns for every graph (or raises `KeyError` when a destination is not a
+key — never for the graphs `_find_dependencies` builds). -/
+theorem C15_terminates (g : Graph) : findCycles g ≠ .outOfFuel := by
+  unfold findCycles findCyclesFuel
+  cases hc : closed g
+  · simp
+  · have := (tarjan_final g hc).1.noOof
+    simp [this]
+
+/-- `C15_tarjan_sccs` (full statement, proved): the components reported by `_find_cycles`
+are exactly the strongly connected components that contain a cycle — each reported list is
+duplicate-free, is a class of mutual reachability, and consists of nodes that depend on
+themselves; every node that depends on itself is in some reported component; and
+reported components are pairwise disjoint (no SCC is reported twice).  The statement does
+not mention the order in which keys or successors are iterated: the *set* of components
+is independent of Python's set/dict iteration order (`C15_order_independent`). -/
+theorem C15_tarjan_sccs (g : Graph) (cs : List (List Nat)) (h : findCycles g = .ok cs) :
+    (∀ C ∈ cs, C.Nodup ∧ IsSCC g C ∧ ∀ a ∈ C, cyclic g a) ∧
+    (∀ a, cyclic g a → ∃ C ∈ cs, a ∈ C) ∧
+    cs.Pairwise (fun C D => ∀ a ∈ C, a ∉ D) := by
+  unfold findCycles findCyclesFuel at h
+  cases hc : closed g
+  · simp [hc] at h
+  · obtain ⟨hinv, hstk, hall⟩ := tarjan_final g hc
+    simp only [hc, Bool.true_eq_false, if_false, hinv.noOof] at h
+    injection h with h
+    subst h
+    refine ⟨fun C hC => ?_, fun a ha => ?_, hinv.compsDisj⟩
+    · obtain ⟨_, h2, h3, h4⟩ := hinv.compsOk C hC
+      exact ⟨h3, h2, h4⟩
+    · obtain ⟨b, he, _⟩ := ReachP.head ha
+      exact hinv.compsAll a (hall a (edge_src_key he)) (by simp [hstk]) ha
+
+/-- The same in the wording of the code ("components of size 1 without a self-edge are not
+included"): the result is, as a set of sets, `{C | C SCC of g ∧ (|C| > 1 ∨ self-edge)}`. -/
+theorem C15_tarjan_sccs_literal (g : Graph) (cs : List (List Nat)) (h : findCycles g = .ok cs) :
+    (∀ C ∈ cs, C.Nodup ∧ IsSCC g C ∧ (C.length > 1 ∨ ∃ a, C = [a] ∧ Edge g a a)) ∧
+    (∀ C, C.Nodup → IsSCC g C → (C.length > 1 ∨ ∃ a, C = [a] ∧ Edge g a a) →
+      ∃ C' ∈ cs, ∀ x, x ∈ C ↔ x ∈ C') := by
+  obtain ⟨h1, h2, _⟩ := C15_tarjan_sccs g cs h
+  constructor
+  · intro C hC
+    obtain ⟨hnd, hscc, hcyc⟩ := h1 C hC
+    refine ⟨hnd, hscc, ?_⟩
+    match C, hscc, hcyc with
+    | [], hscc, _ => exact absurd rfl hscc.1
+    | [a], hscc, hcyc =>
+      right
+      obtain ⟨b, he, hr⟩ := ReachP.head (hcyc a (by simp))
+      have hb : b ∈ [a] := (hscc.2 a (by simp) b).mpr ⟨.single he, hr⟩
+      simp only [List.mem_singleton] at hb
+      subst hb
+      exact ⟨b, rfl, he⟩
+    | _ :: _ :: _, _, _ => left; simp
+  · intro C hnd hscc hnt
+    have hcyc : ∃ a ∈ C, cyclic g a := by
+      rcases hnt with hlen | ⟨a, rfl, he⟩
+      · match C, hnd, hscc, hlen with
+        | a :: b :: _, hnd, hscc, _ =>
+          have hab : a ≠ b := by
+            intro e; subst e; simp at hnd
+          exact ⟨a, by simp, cyclic_of_mutual_ne ((hscc.2 a (by simp) b).mp (by simp)) hab⟩
+      · exact ⟨a, by simp, .single he⟩
+    obtain ⟨a, haC, hca⟩ := hcyc
+    obtain ⟨C', hC', haC'⟩ := h2 a hca
+    refine ⟨C', hC', fun x => ?_⟩
+    rw [hscc.2 a haC x, (h1 C' hC').2.1.2 a haC' x]
+
+/-- `C15_cycle_iff`: a "Dependency cycle" error is produced exactly when some definition
+depends on itself through references. -/
+theorem C15_cycle_iff (g : Graph) (cs : List (List Nat)) (h : findCycles g = .ok cs) :
+    cs ≠ [] ↔ ∃ a, cyclic g a := by
+  obtain ⟨h1, h2, _⟩ := C15_tarjan_sccs g cs h
+  constructor
+  · intro hne
+    cases cs with
+    | nil => exact absurd rfl hne
+    | cons C rest =>
+      obtain ⟨_, hscc, hcyc⟩ := h1 C (by simp)
+      cases C with
+      | nil => exact absurd rfl hscc.1
+      | cons a _ => exact ⟨a, hcyc a (by simp)⟩
+  · intro ⟨a, ha⟩ hnil
+    obtain ⟨C, hC, _⟩ := h2 a ha
+    simp [hnil] at hC
+
+/-- The only other outcome is the `KeyError` of `graph[destination]`. -/
+theorem C15_ok_iff_closed (g : Graph) : (∃ cs, findCycles g = .ok cs) ↔ closed g = true := by
+  unfold findCycles findCyclesFuel
+  cases hc : closed g
+  · simp
+  · have := (tarjan_final g hc).1.noOof
+    simp [this]
+
+/-- Iteration order of `graph` and of each `graph[node]` (Python dict/set order) does not
+matter: two dicts with the same edges yield the same set of components. -/
+theorem C15_order_independent (g g' : Graph) (cs cs' : List (List Nat))
+    (he : ∀ a b, Edge g a b ↔ Edge g' a b)
+    (h : findCycles g = .ok cs) (h' : findCycles g' = .ok cs') :
+    ∀ C ∈ cs, ∃ C' ∈ cs', ∀ x, x ∈ C ↔ x ∈ C' := by
+  intro C hC
+  obtain ⟨h1, _, _⟩ := C15_tarjan_sccs g cs h
+  obtain ⟨h1', h2', _⟩ := C15_tarjan_sccs g' cs' h'
+  obtain ⟨_, hscc, hcyc⟩ := h1 C hC
+  cases hCe : C with
+  | nil => exact absurd hCe hscc.1
+  | cons a rest =>
+    have haC : a ∈ C := by simp [hCe]
+    obtain ⟨C', hC', haC'⟩ := h2' a ((hcyc a haC).congr (fun x y e => (he x y).mp e))
+    refine ⟨C', hC', fun x => ?_⟩
+    rw [← hCe, hscc.2 a haC x, (h1' C' hC').2.1.2 a haC' x]
+    exact ⟨fun m => ⟨m.1.congr (fun x y e => (he x y).mp e), m.2.congr (fun x y e => (he x y).mp e)⟩,
+           fun m => ⟨m.1.congr (fun x y e => (he x y).mpr e), m.2.congr (fun x y e => (he x y).mpr e)⟩⟩
+
+/-- Non-vacuity (tests by evaluation): two SCCs joined by a bridge plus a self-loop and an
+acyclic tail; the self-loop alone; an acyclic chain (no component); a dangling edge. -/
+example : findCycles [(0, [1]), (1, [2]), (2, [0, 3]), (3, [4]), (4, [3]), (5, [5]), (6, [5])]
+    = .ok [[4, 3], [2, 1, 0], [5]] := by decide
+example : findCycles [(0, [1]), (1, [2]), (2, [])] = .ok [] := by decide
+example : findCycles [(0, [1])] = .keyError := by decide
+example : cyclic [(0, [1]), (1, [0])] 0 :=
+  .step (b := 1) (by decide) (.single (by decide))
+
+/-! ## Stability of the ordering, and the link between the two halves -/
+
+/-- `C15_order_least`: among all dependency-respecting arrangements of the fields the
+produced order is the lexicographically least w.r.t. source positions (fields numbered in
+source order) — "each field moves back only as far as its dependencies force it". -/
+theorem C15_order_least (deps : DepFn) (params fields p : List Nat)
+    (hs : fields.Pairwise (· < ·)) (hp : p.Perm fields) (ht : TopoFrom deps params p) :
+    LexLe (order deps params fields) p :=
+  orderAux_least deps _ _ _ _ hs (Nat.le_refl _) hp ht
+
+example : order exDeps [7] [0, 1, 2] = [1, 2, 0] ∧ TopoFrom exDeps [7] [2, 0, 1] ∧
+    LexLe [1, 2, 0] [2, 0, 1] := ⟨by decide, by decide, .lt _ _ (by decide)⟩
+
+/-- The two halves together: if cycle detection reported nothing for the graph `g` and
+every reference of a field of the structure goes to a field or parameter of the same
+structure, then the Python `assert len(order) == len(structure.field)` cannot fire, and
+the order is a permutation of the fields. -/
+theorem C15_assert_cannot_fire (g : Graph) (params fields : List Nat)
+    (hcyc : findCycles g = .ok [])
+    (hdeps : ∀ f ∈ fields, ∀ d ∈ succs g f, d ∈ fields ∨ d ∈ params) :
+    ∃ o, orderChecked (succs g) params fields = some o ∧ o.Perm fields := by
+  have hac : ∀ a, ¬ cyclic g a := fun a ha =>
+    ((C15_cycle_iff g [] hcyc).mpr ⟨a, ha⟩) rfl
+  have hlen := orderAux_total_of_acyclic g hac fields.length params fields (Nat.le_refl _) hdeps
+  have hoc : orderChecked (succs g) params fields = some (order (succs g) params fields) := by
+    simp [orderChecked, order, hlen]
+  exact ⟨_, hoc, C15_order_perm _ _ _ _ hoc⟩
+
+example : findCycles [(0, [2]), (1, []), (2, [7]), (7, [])] = .ok [] ∧
+    orderChecked (succs [(0, [2]), (1, []), (2, [7]), (7, [])]) [7] [0, 1, 2] = some [1, 2, 0] := by
+  decide
+
+/-! ## Error construction, edge extraction, import graph -/
+
+/-- The error groups are emitted in sorted order (`sorted(cycles, key=sorted)`), each
+group lists its component in sorted order (`sorted(cycle)`), and nothing is lost: the
+result is a pure function of the *set* of components. -/
+theorem C15_groups_sorted (comps : List (List Nat)) :
+    (cycleGroups comps).Pairwise (fun a b => lexLe a b = true) ∧
+    (∀ G ∈ cycleGroups comps, G.Pairwise (· ≤ ·) ∧ ∃ C ∈ comps, G.Perm C) ∧
+    (cycleGroups comps).length = comps.length := by
+  refine ⟨isort_sorted _ lexLe_total lexLe_trans _, fun G hG => ?_, ?_⟩
+  · have hG' := (isort_perm lexLe _).subset hG
+    obtain ⟨C, hC, rfl⟩ := List.mem_map.mp hG'
+    refine ⟨?_, C, hC, isort_perm _ _⟩
+    have := isort_sorted (fun a b : Nat => decide (a ≤ b)) (fun a b => by simp; omega)
+      (fun a b c h1 h2 => by simp at h1 h2 ⊢; omega) C
+    exact this.imp (fun h => by simpa using h)
+  · have := (isort_perm lexLe (comps.map (isort fun a b => decide (a ≤ b)))).length_eq
+    simpa [cycleGroups] using this
+
+example : cycleGroups [[4, 3], [2, 1, 0], [5]] = [[0, 1, 2], [3, 4], [5]] := by decide
+
+/-- End to end: the emitted error groups (what the user sees, in order) do not depend on
+Python's dict/set iteration order — two dicts with the same edges give the same groups. -/
+theorem C15_output_order_independent (g g' : Graph) (cs cs' : List (List Nat))
+    (he : ∀ a b, Edge g a b ↔ Edge g' a b)
+    (h : findCycles g = .ok cs) (h' : findCycles g' = .ok cs') :
+    cycleGroups cs = cycleGroups cs' := by
+  obtain ⟨h1, _, h3⟩ := C15_tarjan_sccs g cs h
+  obtain ⟨h1', _, h3'⟩ := C15_tarjan_sccs g' cs' h'
+  exact cycleGroups_canonical cs cs'
+    (fun C hC => ⟨(h1 C hC).1, (h1 C hC).2.1.1⟩) (fun C hC => ⟨(h1' C hC).1, (h1' C hC).2.1.1⟩) h3 h3'
+    (C15_order_independent g g' cs cs' he h h')
+    (C15_order_independent g' g cs' cs (fun a b => (he a b).symm) h' h)
+
+example : cycleGroups [[4, 3], [2, 1, 0], [5]] = cycleGroups [[5], [0, 2, 1], [3, 4]] := by decide
+
+/-- Non-vacuity of the order-independence theorems: the same edges in two dict/set orders;
+Tarjan discovers the components in different orders and with different member orders, the
+emitted groups coincide. -/
+example :
+    let g : Graph := [(0, [1, 3]), (1, [0]), (2, [2]), (3, [4]), (4, [3])]
+    let g' : Graph := [(4, [3]), (2, [2]), (3, [4]), (1, [0]), (0, [3, 1])]
+    findCycles g = .ok [[4, 3], [1, 0], [2]] ∧ findCycles g' = .ok [[3, 4], [2], [0, 1]] ∧
+    cycleGroups [[4, 3], [1, 0], [2]] = cycleGroups [[3, 4], [2], [0, 1]] := by decide
+
+/-- `_find_dependencies`: `a` gets an edge to `b` exactly when some reference below `a`
+that is outside attributes — and, for bare references (enum constants), outside atomic
+types — has head `b`. -/
+theorem C15_dependency_edges (defs : List Defn) (hnd : (defs.map (·.name)).Nodup)
+    (d : Defn) (hd : d ∈ defs) (b : Nat) :
+    Edge (findDependencies defs).1 d.name b ↔
+      ∃ r ∈ d.refs, r.counts = true ∧ r.target = some b := by
+  unfold Edge findDependencies
+  simp only
+  rw [succs_map defs (·.name) _ hnd d hd, mem_dedup, List.mem_filterMap]
+  constructor
+  · rintro ⟨r, hr, ht⟩
+    rw [List.mem_filter] at hr
+    exact ⟨r, hr.1, hr.2, ht⟩
+  · rintro ⟨r, hr, hc, ht⟩
+    exact ⟨r, List.mem_filter.mpr ⟨hr, hc⟩, ht⟩
+
+example : (findDependencies [⟨1, [⟨some 2, 0, true, false, true⟩, ⟨some 3, 0, false, false, true⟩,
+    ⟨some 4, 0, true, true, false⟩]⟩]).1 = [(1, [2])] := by decide
+
+/-- `_find_module_import_dependencies`: every import is an edge, except the prelude's
+import of itself. -/
+theorem C15_import_edges (mods : List ModuleImports) (hnd : (mods.map (·.name)).Nodup)
+    (m : ModuleImports) (hm : m ∈ mods) (i : Nat) :
+    Edge (importGraph mods) m.name i ↔ i ∈ m.imports ∧ (i ≠ 0 ∨ m.name ≠ 0) := by
+  unfold Edge importGraph
+  rw [succs_map mods (·.name) _ hnd m hm, mem_dedup, List.mem_filter]
+  simp
+
+/-- A module other than the prelude that imports itself is an import cycle; the
+prelude's self-import is not. -/
+theorem C15_self_import (mods : List ModuleImports) (hnd : (mods.map (·.name)).Nodup) :
+    (∀ m ∈ mods, m.name ≠ 0 → m.name ∈ m.imports → cyclic (importGraph mods) m.name) ∧
+    ¬ Edge (importGraph mods) 0 0 := by
+  refine ⟨fun m hm h0 hi => .single ((C15_import_edges mods hnd m hm _).mpr ⟨hi, .inl h0⟩), ?_⟩
+  intro he
+  by_cases h : ∃ m ∈ mods, m.name = 0
+  · obtain ⟨m, hm, h0⟩ := h
+    have := (C15_import_edges mods hnd m hm 0).mp (h0 ▸ he)
+    rcases this.2 with h | h
+    · exact h rfl
+    · exact h h0
+  · have : succs (importGraph mods) 0 = [] :=
+      succs_map_none mods (·.name) _ 0 (fun x hx e => h ⟨x, hx, e⟩)
+    unfold Edge at he
+    simp [this] at he
+
+example : findModuleDependencyCycles [⟨0, [0]⟩, ⟨1, [0, 1]⟩, ⟨2, [0, 3]⟩, ⟨3, [0, 2]⟩] =
+    .cycles [[1], [2, 3]] := by decide
 
 end Emboss.Deps
